@@ -57,6 +57,22 @@ func (e *Engine) VerifyFunc(key string) (res *FuncResult) {
 				res.Err = "UNBOUND: contract clauses that bind to nothing in the current source: " + strings.Join(unb, "; ")
 				return
 			}
+			if fi.Decl != nil {
+				goal, clause := "true", fmt.Sprintf("%d accesses to guarded fields, all with Raft.mu held", x.lockAccesses)
+				if len(x.lockViolations) > 0 {
+					goal = "false"
+					seen := map[string]bool{}
+					var vs []string
+					for _, v := range x.lockViolations {
+						if !seen[v] {
+							seen[v] = true
+							vs = append(vs, v)
+						}
+					}
+					clause = strings.Join(vs, "; ")
+				}
+				x.vc.obls = append(x.vc.obls, &Obligation{Name: key + ".guarded-access", Func: key, Kind: "lock", Pos: e.pos(fi.Decl.Pos()), Clause: clause, Goal: goal, vc: x.vc})
+			}
 			x.finalizeObls()
 			res.Obls = x.vc.obls
 			res.Abstracted = x.vc.abstracted
@@ -335,7 +351,9 @@ func (x *Exec) runLemma(fi *FuncInfo, ct *FuncContract) {
 						panic(r)
 					}
 				}()
+				x.specDepth++
 				env.names[c.Name] = x.ceval(c.Expr, env)
+				x.specDepth--
 			}()
 		case "ensures":
 			g := x.cevalBool(c.Expr, env, c)
@@ -351,6 +369,8 @@ func (x *Exec) runLemma(fi *FuncInfo, ct *FuncContract) {
 
 // collectWatch records the terms that describe the function's pre- and post-state, for witnesses.
 func (x *Exec) collectWatch(fi *FuncInfo, fr *Frame, final *State) []watchTerm {
+	x.specDepth++
+	defer func() { x.specDepth-- }()
 	pre := x.firstSec
 	if pre == nil {
 		pre = fr.entry
